@@ -22,7 +22,7 @@ LINE_POOL = [
     b"text:", b".", b'"', b"\\", b"{", b"}", b'"unterminated',
     # characters str.splitlines() treats as line boundaries but which are content inside a line
     # a legal quoted string of <= 1024 characters that is longer than 1024 octets
-    ("é" * 700).encode("utf-8"), ("日" * 400 + " x").encode("utf-8"),
+    ("é" * 700).encode("utf-8"), ("日" * 400 + " x").encode("utf-8"), ("\U0001f600" * 1024).encode("utf-8"),
     "\ufeffkeep;".encode("utf-8"), "x\ufeffy".encode("utf-8"),
     "a\u2028b".encode("utf-8"), "p\u2029q".encode("utf-8"), "n\u0085m".encode("utf-8"), b"v\x0bt", b"f\x0cf", b"g\x1cs\x1dr\x1eu",
 ]
